@@ -32,6 +32,11 @@ CHECKS = {
         technique="deterministic simulation: seeded attach / re-attach / follow-up histories over simulated devices of all 32 types x 8 qualifiers on both transports, with CHECK CONDITION faults on the attach INQUIRY; seam-history and attach-model oracle, plus comparison with a history-free attach",
         text="All (type, qualifier, transport) combinations are attached alone (enumerated, complete) and seeded histories mix up to 4 devices with re-attach, node retyping and faulted attaches. Oracle: exactly one standard INQUIRY per attach at the seam, devicetype, the family's discriminating commands offered with T10 opcodes, no other family's commands, primary commands for every other type working end to end against a target that dispatches by T10 opcode, and the selected set equal to what a fresh attach selects (no dependence on history).",
         note="Family discriminators are named commands with T10 opcodes from t10/; for unrecognised types only the primary commands are demanded, as the property states."),
+    "C09": dict(
+        category="exploration", design_ref="DESIGN.md 5/C09, 4.6",
+        technique="deterministic simulation: seeded baton-passing thread scheduler (sys.settrace line/call/return, optionally bytecode, pre-emption points inside pyscsi; random / PCT / boundary strategies) over programs of 1-3 caller threads, plus sequential histories; oracle = each operation's outcome equals the same operation run alone in a pristine process",
+        text="Real threads, but which thread executes each source line of the library is the simulator's seeded decision, so every interleaving is replayable from one integer and the recorded switch list is minimised (ddmin) and replayed in a fresh process. Each operation (construct any of 42 classes, static encode/decode, data-in decode / round trip, facade calls on a private device) is compared with a reference run of the same thread alone; objects held by a thread must be byte-identical at the end. All ordered class pairs are enumerated sequentially in the thorough tier.",
+        note="Line/call/return granularity (bytecode granularity in ~12% of runs), at most 3 threads, 8 ops per thread; threading.Lock/RLock are replaced by cooperative locks before import so a lock-based repair cannot deadlock the simulator."),
 }
 
 NOT_APPLICABLE = {
